@@ -156,6 +156,7 @@ type Sim struct {
 	rng     *Rng
 	kick    chan struct{}
 	seq     int64 // global event sequence number for history stamps
+	selN    int64 // select statements executed so far (selectseam.go)
 
 	res     *Result
 	current *Task
